@@ -23,7 +23,10 @@ RULE = (
     "nested objects, rng, loggers, containers) x placement (attribute / singleton list / mixed list / tuple / dict / set / nested "
     "object / list in dict / object in list); hostile attribute names x carrier; configuration grid store x compression(None,0..9) x "
     "str|Path target x mode w|o; seeded random graphs depth<=4 width<=8 (now and then >10 / >100, numeric tables with mixed row kinds); overwrite and "
-    "delete-and-recreate histories of same-structure objects on one path (both stores, compression None/0/4, 4 rounds without sleeping, every load vs the latest save). Every case: zip and dir round trip vs the original "
+    "delete-and-recreate histories of same-structure objects on one path (both stores, compression None/0/4, 4 rounds without sleeping, every load vs the latest save); "
+    "restructuring histories (9 saves of 5 differently shaped objects to one path with mode 'o': attributes dropped, containers shrunk, array<->scalar<->list<->object, "
+    "all-zero arrays over non-zero ones, root class changed; load after every save / with print_file in between / only at the end); after-error histories (a save that raises "
+    "on an un-storable member nested at 6 positions, twice; then the repaired same object, a pre-existing other object and 5 freshly built objects must round-trip). Every case: zip and dir round trip vs the original "
     "(deq roundtrip), zip vs dir (deq strict), second generation vs first (deq strict, all-numeric sequences by value). non-trivial = >=3 attributes in the graph "
     "and >=2 distinct value kinds; distinct = sha1 of the sorted multiset of (kind, depth)"
 )
@@ -39,12 +42,14 @@ ASSUMPTIONS = [
 ]
 BUDGET = {"quick": {"soft_s": 150}, "thorough": {"soft_s": 900}}
 MIN_EVALUATIONS = {"quick": 800, "thorough": 3000}
-REQUIRED_COUNTERS = ["eval:roundtrip_differs", "eval:cross_store_differs", "eval:fixed_point_differs", "eval:history_stale_load"]
+REQUIRED_COUNTERS = ["eval:roundtrip_differs", "eval:cross_store_differs", "eval:fixed_point_differs", "eval:history_stale_load", "eval:after_error_differs"]
 EXHAUSTIVE = {"quick": False, "thorough": False}
 
 COMPRESSION = [None, 0, 1, 2, 3, 4, 5, 6, 7, 8, 9]
 CORE_PLACEMENTS = ["attr", "list1", "tuple1", "dict", "set1"]
 HISTORY_VARIANTS = ["scalars", "arrays", "mixed"]
+RESTRUCTURE_MODES = ["load_each", "load_each_print_file", "control_no_intermediate_load"]
+AFTER_ERROR_WHERE = ["attr_of_child", "in_list", "in_dict_in_list", "deep_mixed", "in_object_in_list", "in_set_member_tuple"]
 NAME_CARRIERS = ["scalar", "path", "array", "tensor", "list", "numlist", "object", "dictkey"]
 
 
@@ -59,6 +64,22 @@ def plan(tier, seed):
                 for how in ("overwrite", "delete_recreate"):
                     for rep_ in range(1 if tier == "quick" else 6):
                         specs.append({"kind": "history", "store": store, "compression": comp, "variant": variant, "how": how, "rounds": 4, "_must_run": True})
+    # the same path receives objects of *different* structure (attributes dropped, containers shrunk, kinds changed, all-zero arrays)
+    for store in ("zip", "dir"):
+        for comp in (None, 4):
+            for mode in RESTRUCTURE_MODES:
+                for perm in range(2 if tier == "quick" else 8):
+                    specs.append({"kind": "restructure", "store": store, "compression": comp, "mode": mode, "perm": perm, "_must_run": True})
+    # a save that raises (un-storable member somewhere inside) must not influence any later save of the same process
+    n_ae = 0
+    for store in ("zip", "dir"):
+        for where in AFTER_ERROR_WHERE:
+            for bad in ("generator", "unpicklable", "object_array"):
+                for repair in ("remove", "replace"):
+                    n_ae += 1
+                    if tier == "quick" and (n_ae + seed) % 2:
+                        continue
+                    specs.append({"kind": "after_error", "store": store, "where": where, "bad": bad, "repair": repair, "_must_run": True})
     j = 0
     for k in serkinds.KINDS:
         for p in serkinds.PLACEMENTS:
@@ -363,12 +384,215 @@ def _run_history(spec, idx, ctx):
     ctx.observe(kind="history", store=store, compression=comp, variant=variant, how=how, rounds=spec["rounds"], archive_sizes=sizes)
 
 
+def _restructure_stage(ctx, rng, stage):
+    """five objects of deliberately different structure that share attribute names (stage 0 and 4 are rich, 3 is nearly empty)."""
+    import numpy as np
+    import torch
+
+    sg = ctx.state["sg"]
+
+    def leaf(cls=None):
+        return sg.make_leaf(rng, cls)
+
+    nz = lambda shape, dt="float64": (rng.integers(1, 9, size=shape)).astype(dt)  # noqa: E731  strictly non-zero
+    if stage in (0, 4):
+        g = sg.Node()
+        g.a = nz((3, 4))
+        g.b = ["b0", 1, None, nz((2,), "int16"), "b4"]
+        g.c = {"k1": 1, "k2": nz((3,)), "k3": [1, 2, 3], "k4": {"in": "ner"}}
+        g.d = leaf()
+        g.e = int(rng.integers(1, 99))
+        g.z = nz((4, 4))
+        g.zi = nz((6,), "int32")
+        g.extra = "only in the rich stages %d" % int(rng.integers(99))
+        g.lst_obj = [leaf(), leaf(sg.Other), leaf()]
+        g.t = torch.tensor(rng.normal(size=(2, 3)).tolist(), dtype=torch.float32)
+        g.tbl = [(1, 2), (3, 4), (5, int(rng.integers(6, 99)))]
+        if stage == 4:
+            g.a = nz((3, 4)) + 10
+            g.only4 = {"x": 1}
+    elif stage == 1:
+        g = sg.Node()
+        g.a = 7  # array -> scalar
+        g.b = ["b0", 1]  # shrunk
+        g.c = {"k1": 2, "k9": "new"}  # keys dropped / added
+        g.d = [1, "x"]  # object -> list
+        g.e = nz((2, 2))  # scalar -> array
+        g.z = np.zeros((4, 4))  # all-zero array of the same shape and dtype
+        g.zi = np.zeros((6,), dtype=np.int32)
+        g.lst_obj = [leaf()]
+        g.tbl = [(9, 8)]
+    elif stage == 2:
+        g = sg.Other()  # another root class
+        g.a = ["p", 1]  # -> list
+        g.b = leaf()  # list -> object
+        g.c = "now a string"
+        g.d = leaf(sg.Other)
+        g.d.only_here = nz((2,))
+        g.z = nz((4, 4))
+        g.zi = np.zeros((6,), dtype=np.int32)
+        g.fresh = (1, "t")
+        g.lst_obj = []
+    else:  # stage 3: nearly empty
+        g = sg.Node()
+        g.a = None
+        g.z = np.zeros((4, 4))
+        g.t = torch.zeros(2, 3)
+    return g
+
+
+def _run_restructure(spec, idx, ctx):
+    import contextlib
+    import io
+
+    import numpy as np
+
+    load = ctx.state["load"]
+    store, comp, mode = spec["store"], spec["compression"], spec["mode"]
+    base = os.path.join(ctx.tmp, "c01", "restr%d" % idx)
+    shutil.rmtree(base, ignore_errors=True)
+    os.makedirs(base)
+    p = os.path.join(base, "obj.zip" if store == "zip" else "obj")
+    rng = np.random.default_rng([int(ctx.seed), 1, 8, int(idx)])
+    order = [0] + [int(v) for v in rng.permutation([1, 2, 3, 4])] + [1, 0, 3, 2]
+    f = {"case_kind": "restructure", "store": store, "compression": str(comp), "variant": "restructure", "how": mode}
+    try:
+        g = None
+        for step, stage in enumerate(order):
+            g = _restructure_stage(ctx, rng, stage)
+            if not _save(ctx, g, p, store, "o" if step else "w", comp, dict(f, round=step), "save_round"):
+                break
+            last = step == len(order) - 1
+            if mode == "control_no_intermediate_load" and not last:
+                continue
+            if mode == "load_each_print_file":
+                try:
+                    from quantem.core.io import print_file
+
+                    with contextlib.redirect_stdout(io.StringIO()):
+                        print_file(p)
+                except Exception as e:  # noqa: BLE001
+                    ctx.check(False, "roundtrip_raises", "print_file raised %r" % (e,), phase="print_file", exc_type=type(e).__name__, **f)
+            ok, r = _load(ctx, p, dict(f, round=step), "load_round")
+            if ok:
+                _judge(ctx, g, r, "roundtrip", "history_stale_load", dict(f, round=min(step, 1), second_load=False, prev_stage=order[step - 1] if step else -1, stage=stage),
+                       "step %d: load after saving stage %d over stage %s on the same path (%s)" % (step, stage, order[step - 1] if step else "-", mode))
+    finally:
+        shutil.rmtree(base, ignore_errors=True)
+    ctx.count("restructure_cases")
+    ctx.nontrivial("restructure|%s|%s|%s|%s" % (store, comp, mode, spec["perm"]), True)
+    ctx.observe(kind="restructure", store=store, compression=comp, mode=mode, stage_order=order)
+
+
+def _graph_with_bad(ctx, rng, where, bad):
+    """a graph with an un-storable member somewhere inside containers / nested objects, plus (holder, key) to repair it."""
+    sg = ctx.state["sg"]
+    g = sg.Node()
+    g.first = sg.make_array_shape(rng, "float32", (3,))
+    g.n = int(rng.integers(99))
+    if where == "attr_of_child":
+        g.child = sg.make_leaf(rng)
+        g.child.sub = sg.make_leaf(rng, sg.Other)
+        g.child.sub.bad = bad
+        holder, key = g.child.sub, "bad"
+    elif where == "in_list":
+        g.items = ["a", sg.make_array_shape(rng, "int16", (2,)), bad, "z"]
+        holder, key = g.items, 2
+    elif where == "in_dict_in_list":
+        g.items = [{"ok": 1, "bad": bad, "after": [1, 2]}, "tail"]
+        holder, key = g.items[0], "bad"
+    elif where == "deep_mixed":
+        g.child = sg.make_leaf(rng)
+        g.child.cfg = {"lvl1": [("t", {"lvl3": ["x", bad, "y"]})], "other": (1, 2)}
+        holder, key = g.child.cfg["lvl1"][0][1]["lvl3"], 1
+    elif where == "in_object_in_list":
+        inner = sg.make_leaf(rng)
+        inner.bad = bad
+        inner.more = {"k": [1, "a"]}
+        g.objs = [sg.make_leaf(rng, sg.Other), inner]
+        holder, key = inner, "bad"
+    elif where == "in_set_member_tuple":
+        # the tuple sits in a dict next to a set; the bad member inside a list inside the dict
+        g.bag = {"s": {1, "a", (2, 3)}, "l": [bad], "t": ((1, 2), ["q"])}
+        holder, key = g.bag["l"], 0
+    else:
+        raise KeyError(where)
+    g.last = {"k": [1, "end"], "m": (2.5, None)}
+    g.tail = "after everything"
+    return g, holder, key
+
+
+def _run_after_error(spec, idx, ctx):
+    import gc
+
+    import numpy as np
+
+    sg, load = ctx.state["sg"], ctx.state["load"]
+    store, where, badk, repair = spec["store"], spec["where"], spec["bad"], spec["repair"]
+    rng = np.random.default_rng([int(ctx.seed), 1, 7, int(idx)])
+    base = os.path.join(ctx.tmp, "c01", "aerr%d" % idx)
+    shutil.rmtree(base, ignore_errors=True)
+    os.makedirs(base)
+    ext = ".zip" if store == "zip" else ""
+    f = {"case_kind": "after_error", "store": store, "where": where, "bad": badk, "repair": repair}
+
+    def roundtrip(obj, name, who):
+        p = os.path.join(base, name + ext)
+        if _save(ctx, obj, p, store, "o", 4, dict(f, who=who), "save_after_error"):
+            ok, r = _load(ctx, p, dict(f, who=who), "load_after_error")
+            if ok:
+                _judge(ctx, obj, r, "roundtrip", "after_error_differs", dict(f, who=who), "after a failed save: %s" % who)
+
+    try:
+        other = sg.fault_graph(int(rng.integers(6)), int(rng.integers(1 << 20)))  # exists before the failure
+        g, holder, key = _graph_with_bad(ctx, rng, where, sg.bad_member(badk))
+        p = os.path.join(base, "main" + ext)
+        failures = 0
+        for attempt in range(2):  # fail twice: leaked state must not accumulate either
+            try:
+                g.save(p, mode="w", store=store)
+            except Exception:  # noqa: BLE001  (the caller catches the error and carries on)
+                failures += 1
+        ctx.check(failures == 2, "after_error_setup", "save of a graph with an un-storable %s member did not raise" % badk, **f)
+        # repair the very same object and save it again
+        if repair == "remove":
+            if isinstance(holder, (list, dict)):
+                del holder[key]
+            else:
+                delattr(holder, key)
+        else:
+            val = ["replacement", 1, {"k": (1, 2)}]
+            if isinstance(holder, (list, dict)):
+                holder[key] = val
+            else:
+                setattr(holder, key, val)
+        roundtrip(g, "main", "same_object_repaired")
+        roundtrip(other, "other", "different_pre_existing_object")
+        roundtrip(g, "main_again", "same_object_repaired_again")
+        # objects built right afterwards (freed ids may be reused)
+        del g, holder
+        gc.collect()
+        for j in range(5):
+            fresh, _, _ = _graph_with_bad(ctx, rng, AFTER_ERROR_WHERE[(j + idx) % len(AFTER_ERROR_WHERE)], "fine %d" % j)
+            roundtrip(fresh, "fresh%d" % j, "fresh_object")
+            del fresh
+    finally:
+        shutil.rmtree(base, ignore_errors=True)
+    ctx.count("after_error_cases")
+    ctx.nontrivial("after_error|%s|%s|%s|%s" % (store, where, badk, repair), True)
+    ctx.observe(kind="after_error", store=store, where=where, bad=badk, repair=repair)
+
+
 def run_case(spec, idx, ctx):
     sg = ctx.state["sg"]
     rng = ctx.rng(idx)
     kind = spec["kind"]
     if kind == "history":
         return _run_history(spec, idx, ctx)
+    if kind == "restructure":
+        return _run_restructure(spec, idx, ctx)
+    if kind == "after_error":
+        return _run_after_error(spec, idx, ctx)
     if kind == "library":
         g = _library_graph(ctx, spec, rng) if "Dataset" in ctx.state else None
         if g is None:
